@@ -76,8 +76,9 @@ def body_calls(facts, body, pred):
     return out
 
 
-def reachable_bodies(facts, roots, follow_closures=True):
-    """crate-local bodies reachable from roots through resolved calls and closure/coroutine aggregates"""
+def reachable_bodies(facts, roots, follow_closures=True, stop=()):
+    """crate-local bodies reachable from roots through resolved calls and closure/coroutine aggregates (`stop`: bodies that
+    are reached but not entered)"""
     seen = set()
     work = [r for r in roots if r in facts.bodies]
     while work:
@@ -85,6 +86,8 @@ def reachable_bodies(facts, roots, follow_closures=True):
         if n in seen:
             continue
         seen.add(n)
+        if n in stop:
+            continue
         b = facts.bodies[n]
         for blk in b["blocks"]:
             if blk["cleanup"]:
